@@ -1199,4 +1199,108 @@ theorem loopS_refines (g : Graph) (fuel : Nat) (q0 : List (Option Nat)) : ∀ (n
     · simp only [hi, if_false, Except.map]
       rw [done i r R (by omega)]
 
+/-! ### deletions are never pulled forward: a `marked_to_delete` object is written only at its own slot -/
+
+def KeepsDeletes (x : Nat) (s s' : St) : Prop :=
+  ∀ y, statusOf s.status y = .markedToDelete → y ≠ x → statusOf s'.status y = .markedToDelete
+
+theorem saveRefs_keepsDeletes {rec : Nat → List Nat → St → Except Err (St × List Nat)}
+    (hrec : ∀ y d s s' d', statusOf s.status y = .created → rec y d s = .ok (s', d') → KeepsDeletes y s s') :
+    ∀ (rs : List Ref) (d : List Nat) (s s' : St) (d' : List Nat), saveRefs rec rs d s = .ok (s', d') →
+      ∀ y, statusOf s.status y = .markedToDelete → statusOf s'.status y = .markedToDelete := by
+  intro rs
+  induction rs with
+  | nil => intro d s s' d' h y hy; simp [saveRefs] at h; obtain ⟨rfl, rfl⟩ := h; exact hy
+  | cons r rs ih =>
+    intro d s s' d' h y hy
+    simp only [saveRefs] at h
+    by_cases hc : statusOf s.status r.target = .created
+    · simp only [hc, if_true] at h
+      cases hr : rec r.target d s with
+      | error e => simp [hr] at h
+      | ok p =>
+        obtain ⟨s1, d1⟩ := p
+        simp only [hr] at h
+        have hne : y ≠ r.target := by intro e; rw [e, hc] at hy; simp at hy
+        exact ih d1 s1 s' d' h y (hrec _ _ _ _ _ hc hr y hy hne)
+    · simp only [hc, if_false] at h
+      exact ih d s s' d' h y hy
+
+theorem save_keepsDeletes (g : Graph) : ∀ (fuel x : Nat) (dep : Option (List Nat)) (s s' : St) (d' : List Nat),
+    save g fuel x dep s = .ok (s', d') → KeepsDeletes x s s' := by
+  intro fuel
+  induction fuel with
+  | zero => intro x dep s s' d' h; simp [save] at h
+  | succ fuel ih =>
+    intro x dep s s' d' h y hy hyx
+    simp only [save] at h
+    have hset : ∀ (stx : Status) (s1 : St), statusOf s1.status y = .markedToDelete →
+        statusOf (writeObj x stx s1).status y = .markedToDelete := by
+      intro stx s1 h1
+      have hne : ¬ (x = y ∧ x < s1.status.length) := fun e => hyx e.1.symm
+      cases stx <;> simp only [writeObj] <;> (try exact h1) <;>
+        (rw [statusOf_set]; simp only [hne, if_false]; exact h1)
+    by_cases hcm : statusOf s.status x = .created ∨ statusOf s.status x = .modified
+    · simp only [hcm, if_true] at h
+      by_cases hin : inDep dep x = true
+      · simp [hin] at h
+      · simp only [hin] at h
+        cases hr : saveRefs (fun y d' s' => save g fuel y (some d') s') (attrsToCheck g (statusOf s.status x) x)
+            (dep.getD [] ++ [x]) s with
+        | error e => simp [hr] at h
+        | ok p =>
+          obtain ⟨s1, d1⟩ := p
+          simp [hr] at h
+          obtain ⟨rfl, rfl⟩ := h
+          apply hset
+          exact saveRefs_keepsDeletes (fun y d s s' d' _ hy => ih y (some d) s s' d' hy) _ _ _ _ _ hr y hy
+    · simp only [hcm, if_false] at h
+      by_cases hd : statusOf s.status x = .markedToDelete
+      · simp [hd] at h
+        obtain ⟨rfl, rfl⟩ := h
+        exact hset _ _ hy
+      · simp [hd] at h
+
+theorem saveQueue_append (g : Graph) (fuel : Nat) : ∀ (a b : List (Option Nat)) (s : St),
+    saveQueue g fuel (a ++ b) s = (match saveQueue g fuel a s with | .ok s1 => saveQueue g fuel b s1 | .error e => .error e) := by
+  intro a
+  induction a with
+  | nil => intro b s; simp [saveQueue]
+  | cons o a ih =>
+    intro b s
+    cases o with
+    | none => simp only [List.cons_append, saveQueue]; exact ih b s
+    | some x =>
+      simp only [List.cons_append, saveQueue]
+      by_cases hw : written s x = true
+      · simp only [hw, if_true]; exact ih b s
+      · simp only [hw]
+        cases save g fuel x none s with
+        | error e => simp
+        | ok p => obtain ⟨s1, d1⟩ := p; simp only; exact ih b s1
+
+theorem saveQueue_keepsDeletes (g : Graph) (fuel : Nat) : ∀ (q : List (Option Nat)) (s s' : St),
+    saveQueue g fuel q s = .ok s' → ∀ y, statusOf s.status y = .markedToDelete → some y ∉ q →
+      statusOf s'.status y = .markedToDelete := by
+  intro q
+  induction q with
+  | nil => intro s s' h y hy _; simp [saveQueue] at h; subst h; exact hy
+  | cons o q ih =>
+    intro s s' h y hy hq
+    cases o with
+    | none => simp only [saveQueue] at h; exact ih s s' h y hy (by simpa using hq)
+    | some x =>
+      simp only [saveQueue] at h
+      have hxy : y ≠ x := by intro e; subst e; simp at hq
+      have hq' : some y ∉ q := by intro e; exact hq (by simp [e])
+      by_cases hw : written s x = true
+      · simp only [hw, if_true] at h; exact ih s s' h y hy hq'
+      · simp only [hw] at h
+        cases hr : save g fuel x none s with
+        | error e => simp [hr] at h
+        | ok p =>
+          obtain ⟨s1, d1⟩ := p
+          simp [hr] at h
+          exact ih s1 s' h y (save_keepsDeletes g _ _ _ _ _ _ hr y hy hxy) hq'
+
 end PonyVerif.Model.SaveOrder
